@@ -959,7 +959,9 @@ public:
     const_iterator cend() const { return const_iterator(this, m_n); }
     const_iterator constBegin() const { return cbegin(); }
     const_iterator constEnd() const { return cend(); }
-    void append(const T &v) { QM_LIMIT(m_n < CAP); m_a[m_n++] = v; }
+    // element writes use constant indices under guards (a store at a symbolic index into an array of structs
+    // destroys CBMC's field sensitivity and makes symex crawl)
+    void append(const T &v) { QM_LIMIT(m_n < CAP); for (int j = 0; j < CAP; ++j) if (j == m_n) m_a[j] = v; ++m_n; }
     void push_back(const T &v) { append(v); }
     void append(std::initializer_list<T> l) { for (const T &v : l) append(v); }
     void append(const QList &o) { for (int i = 0; i < CAP; ++i) if (i < o.m_n) append(o.m_a[i]); }
@@ -982,7 +984,8 @@ public:
         if (i > m_n) i = m_n;
         QM_LIMIT(m_n < CAP);
         for (int k = CAP - 1; k > 0; --k) if (k <= m_n && k > i) m_a[k] = m_a[k - 1];
-        m_a[i] = v; ++m_n;
+        for (int k = 0; k < CAP; ++k) if (k == i) m_a[k] = v;
+        ++m_n;
     }
     iterator insert(iterator before, const T &v)
     {
@@ -1001,6 +1004,16 @@ public:
     void removeLast() { QM_ASSERT(m_n > 0, "QList::removeLast on empty list"); removeAt(m_n - 1); }
     T takeFirst() { T t = first(); removeFirst(); return t; }
     iterator erase(iterator pos) { QM_ASSERT(pos.l == this && pos.i >= 0 && pos.i < m_n, "QList::erase: bad iterator"); removeAt(pos.i); return iterator(this, pos.i); }
+    iterator erase(iterator first, iterator last)
+    {
+        QM_ASSERT(first.l == this && last.l == this && first.i >= 0 && first.i <= last.i && last.i <= m_n, "QList::erase(range): bad iterators");
+        int d = last.i - first.i;
+        if (d > 0) {
+            for (int k = 0; k < CAP; ++k) if (k >= first.i && k + d < m_n) for (int j = 0; j < CAP; ++j) if (j == k + d) m_a[k] = m_a[j];
+            m_n -= d;
+        }
+        return iterator(this, first.i);
+    }
     int removeAll(const T &v)
     {
         int k = 0, removed = 0;
@@ -1057,7 +1070,14 @@ inline QStringList QString::split(const QString &sep, Qt::SplitBehaviorFlags b) 
 // ---------------------------------------------------------------- qHash + QHash / QSet (association list, insertion order)
 inline uint qHash(uint key, uint seed = 0) noexcept { return key ^ seed; }
 inline uint qHash(int key, uint seed = 0) noexcept { return uint(key) ^ seed; }
-inline uint qHash(const QString &, uint seed = 0) noexcept { return seed; }
+inline uint qHash(const QString &s, uint seed = 0) noexcept
+{
+    // Qt 5.15 qHash(QString) with seed 0 (no CRC32 path): h = 31*h + unit.  A non-zero seed is outside the model.
+    QM_LIMIT(seed == 0);
+    uint h = 0;
+    for (int i = 0; i < QM_STR_CAP; ++i) if (i < s.m_len) h = 31u * h + s.m_d[i];
+    return h;
+}
 
 template<typename K, typename V, int CAP = QM_HASH_CAP> class QHash
 {
@@ -1095,19 +1115,20 @@ public:
     int count() const { return m_n; }
     bool isEmpty() const { return m_n == 0; }
     void clear() { m_n = 0; }
-    int idx(const K &k) const { for (int i = 0; i < CAP; ++i) if (i < m_n && m_k[i] == k) return i; return -1; }
+    int idx(const K &k) const { int r = -1; for (int i = 0; i < CAP; ++i) if (r < 0 && i < m_n && m_k[i] == k) r = i; return r; }
     bool contains(const K &k) const { return idx(k) >= 0; }
+    // all element accesses use constant indices under guards (see QList::append)
     iterator insert(const K &k, const V &v)
     {
         int i = idx(k);
-        if (i < 0) { QM_LIMIT(m_n < CAP); i = m_n++; m_k[i] = k; }
-        m_v[i] = v;
+        if (i < 0) { QM_LIMIT(m_n < CAP); i = m_n; for (int j = 0; j < CAP; ++j) if (j == i) m_k[j] = k; ++m_n; }
+        for (int j = 0; j < CAP; ++j) if (j == i) m_v[j] = v;
         return iterator { this, i };
     }
     void insert(const QHash &o) { for (int i = 0; i < CAP; ++i) if (i < o.m_n) insert(o.m_k[i], o.m_v[i]); }
     QHash &unite(const QHash &o) { insert(o); return *this; }
-    const V value(const K &k) const { int i = idx(k); return i >= 0 ? m_v[i] : V(); }
-    const V value(const K &k, const V &def) const { int i = idx(k); return i >= 0 ? m_v[i] : def; }
+    const V value(const K &k) const { V r = V(); for (int i = 0; i < CAP; ++i) if (i < m_n && m_k[i] == k) r = m_v[i]; return r; }
+    const V value(const K &k, const V &def) const { V r = def; for (int i = 0; i < CAP; ++i) if (i < m_n && m_k[i] == k) r = m_v[i]; return r; }
     V &operator[](const K &k) { int i = idx(k); if (i < 0) { QM_LIMIT(m_n < CAP); i = m_n++; m_k[i] = k; m_v[i] = V(); } return m_v[i]; }
     const V operator[](const K &k) const { return value(k); }
     int remove(const K &k)
